@@ -36,8 +36,9 @@ func (i Inst) Key() string { return fmt.Sprintf("%s.%s%v", i.Pkg, i.Fn, i.Args) 
 
 type Spec struct {
 	ID       string
-	Quick    func() []Inst
-	Thorough func() []Inst
+	Quick    func(l *loaded) []Inst
+	Thorough func(l *loaded) []Inst
+	Solver   string   // preferred solver (default z3)
 	Covers   []string // witnesses that must be reached
 	Bounds   string
 	Outside  string
@@ -57,6 +58,7 @@ type instResult struct {
 	busy      int
 	Decisions int
 	Uncertain int
+	Elapsed   float64
 }
 
 type workItem struct {
@@ -120,6 +122,7 @@ type options struct {
 	timeoutMs  int
 	samplesPer int
 	trace      bool
+	solverSet  bool
 }
 
 // explore runs all instances on a shared worker pool.
@@ -145,6 +148,7 @@ func explore(l *loaded, insts []Inst, opt options) ([]*instResult, runStats, err
 	var firstErr error
 	for w := 0; w < opt.workers; w++ {
 		wg.Add(1)
+		w := w
 		go func() {
 			defer wg.Done()
 			s, err := smt.Start(opt.solver, opt.timeoutMs)
@@ -155,6 +159,11 @@ func explore(l *loaded, insts []Inst, opt options) ([]*instResult, runStats, err
 				return
 			}
 			defer s.Close()
+			if lp := os.Getenv("KV_SMTLOG"); lp != "" {
+				f, _ := os.Create(fmt.Sprintf("%s.%d", lp, w))
+				defer f.Close()
+				s.Log = f
+			}
 			var e *exec.Exec
 			for {
 				wi, ok := p.pop()
@@ -176,8 +185,10 @@ func explore(l *loaded, insts []Inst, opt options) ([]*instResult, runStats, err
 				if e.Cfg.MaxSched == 0 {
 					e.Cfg.MaxSched = 5000
 				}
+				tp := time.Now()
 				out := e.RunPath(ir.fn, ir.Inst.Args, wi.prefix)
 				ir.mu.Lock()
+				ir.Elapsed += time.Since(tp).Seconds()
 				ir.Paths++
 				ir.ByKind[out.Kind]++
 				for _, c := range out.Covers {
@@ -351,7 +362,7 @@ func nondetVec(o exec.Outcome) ([]uint64, []string) {
 }
 
 func sig(in Inst, o exec.Outcome) string {
-	return in.Fn + "|" + o.Kind + "|" + o.Detail + "|" + o.Site
+	return fmt.Sprintf("%s%v|%s|%s|%s", in.Fn, in.Args, o.Kind, o.Detail, o.Site)
 }
 
 func runCheck(prop, tier string, opt options) int {
@@ -370,9 +381,12 @@ func runCheck(prop, tier string, opt options) int {
 	}
 	var insts []Inst
 	if tier == "thorough" && spec.Thorough != nil {
-		insts = spec.Thorough()
+		insts = spec.Thorough(l)
 	} else {
-		insts = spec.Quick()
+		insts = spec.Quick(l)
+	}
+	if spec.Solver != "" && !opt.solverSet {
+		opt.solver = spec.Solver
 	}
 	results, stats, err := explore(l, insts, opt)
 	if err != nil {
@@ -429,7 +443,7 @@ func runCheck(prop, tier string, opt options) int {
 	id := 0
 	for _, s := range order {
 		g := groups[s]
-		if g.in.NoNative || g.o.Model == nil {
+		if g.in.NoNative || g.o.Model == nil || id >= 150 {
 			continue
 		}
 		v, _ := nondetVec(g.o)
@@ -578,7 +592,7 @@ func runCheck(prop, tier string, opt options) int {
 	}
 	instDesc := []map[string]interface{}{}
 	for _, r := range results {
-		instDesc = append(instDesc, map[string]interface{}{"harness": r.Inst.Fn, "args": r.Inst.Args, "paths": r.Paths, "outcomes": r.ByKind, "note": r.Inst.Note})
+		instDesc = append(instDesc, map[string]interface{}{"harness": r.Inst.Fn, "args": r.Inst.Args, "paths": r.Paths, "outcomes": r.ByKind, "note": r.Inst.Note, "cpu_s": r.Elapsed})
 	}
 	if len(instDesc) > 60 {
 		instDesc = instDesc[:60]
